@@ -1,11 +1,448 @@
-"""Contracts for verif/data.py (C01, C02, C03, C14, C18, C11, C15)."""
+"""Contracts for verif/data.py: Data._get_score / Data.get_scores / _apply_axis on a ghost Data object
+(C01 fair comparison, C02 gather by own coordinates, C03 obs range, C04 validity mask, C14 climatology,
+C18 history independence), EXT obligations, and bounded stand-ins for _get_common_indices and __init__."""
+import itertools
+
+import numpy as _np
+
 import verif.data
+import verif.input
+import verif.field
+import verif.axis
+import verif.aggregator
+import verif.variable
 
-from pyvc import ext
+from pyvc import ext, sym
+from pyvc.framework import Obligation, register, Bag, FIN, NAN, PINF, NINF, ALL_KINDS, bounded_obligation
 
+MOD = [verif.data, verif.input, verif.util]
 DATA_PROPS = ("C01", "C02", "C03", "C14", "C18")
+
 for _name in ("__init__", "get_scores", "_get_score", "_get_common_indices", "_apply_axis", "get_axis_values",
               "get_axis_descriptions", "preaggregate", "_get_times", "_get_leadtimes", "_get_locations"):
     ext.register_ext("verif.data.Data.%s" % _name, (lambda n=_name: verif.data.Data.__dict__[n]), DATA_PROPS)
 for _name in ("preaggregate_time", "preaggregate_leadtime"):
     ext.register_ext("verif.data.%s" % _name, (lambda n=_name: getattr(verif.data, n)), ("C15",))
+
+
+# ----------------------------------------------------------------------------------------------
+# ghost dataset
+# ----------------------------------------------------------------------------------------------
+class StubInput(verif.input.Input):
+    """an input whose arrays are given; subclass of the real Input so the real get_fields() runs"""
+    def __init__(self, name, obs, fcst, other=None):
+        self.fullname = name
+        self.obs = obs
+        self.fcst = fcst
+        self.pit = None
+        self.ensemble = None
+        self.thresholds = _np.array([])
+        self.quantiles = _np.array([])
+        self._other = other or {}
+        self.other_fields = list(self._other.keys())
+        self.times = None
+        self.leadtimes = None
+        self.locations = []
+        self.variable = verif.variable.Variable("ghost", "units")
+
+    def other_score(self, name):
+        return self._other[name]
+
+
+TIME_AXES = ("Month", "Year", "Week", "Day", "Dayofyear", "Dayofmonth", "Monthofyear", "Timeofday")
+
+
+def ghost(G, n_inputs, has_obs=None, clim=None, obs_range=False, other=False):
+    """a Data object in the state Data.__init__ leaves it in (its index lists satisfy the postcondition of
+    _get_common_indices, decided separately), with symbolic contents; nothing cached yet"""
+    N = n_inputs + (1 if clim else 0)
+    has_obs = has_obs or [True] * N
+    # Data.__init__ aborts when an intersection is empty, so the common axes have at least one entry
+    # (times emptied afterwards by -d/-tod are outside this ghost state; noted in DESIGN.md)
+    CT, CL, CS = G.axis("ct", min_size=1), G.axis("cl", min_size=1), G.axis("cs", min_size=1)
+    gh = Bag(N=N, n_inputs=n_inputs, clim=clim, raw={}, raw0={}, It=[], Il=[], Is=[], axes=(CT, CL, CS), has_obs=has_obs,
+             other=other)
+    inputs = []
+    for i in range(N):
+        T, L, Sx = G.axis("t%d" % i, min_size=1), G.axis("l%d" % i, min_size=1), G.axis("s%d" % i, min_size=1)
+        obs = G.array("obs%d" % i, (T, L, Sx), kinds=ALL_KINDS) if has_obs[i] else None
+        fcst = G.array("fcst%d" % i, (T, L, Sx), kinds=ALL_KINDS)
+        oth = {"aux": G.array("aux%d" % i, (T, L, Sx), kinds=ALL_KINDS)} if other else {}
+        gh.raw[(i, "obs")], gh.raw[(i, "fcst")] = obs, fcst
+        gh.raw0[(i, "obs")] = obs.copy() if obs is not None else None
+        gh.raw0[(i, "fcst")] = fcst.copy()
+        if other:
+            gh.raw[(i, "aux")] = oth["aux"]
+            gh.raw0[(i, "aux")] = oth["aux"].copy()
+        gh.It.append(G.array("It%d" % i, (CT,), dtype="int", bound_axis=T))
+        gh.Il.append(G.array("Il%d" % i, (CL,), dtype="int", bound_axis=L))
+        gh.Is.append(G.array("Is%d" % i, (CS,), dtype="int", bound_axis=Sx))
+        inputs.append(StubInput("in%d" % i, obs, fcst, oth))
+    d = object.__new__(verif.data.Data)
+    d._remove_missing_across_all = True
+    d._legend = None
+    d._obs_field = verif.field.Obs()
+    d._fcst_field = verif.field.Fcst()
+    d._obs_range = None
+    if obs_range:
+        gh.lo, gh.hi = G.num("obs_lo"), G.num("obs_hi")
+        d._obs_range = [gh.lo, gh.hi]
+    d._inputs = inputs
+    d._get_score_cache = [dict() for _ in range(N)]
+    d._get_scores_cache = dict()
+    d._clim = inputs[-1] if clim else None
+    if clim:
+        d._clim_type = clim
+    d._timesI, d._leadtimesI, d._locationsI = gh.It, gh.Il, gh.Is
+    d.num_inputs = n_inputs
+    d.dim_agg_length = None
+    d.dim_agg_axis = verif.axis.Leadtime()
+    d.dim_agg_method = verif.aggregator.Mean()
+    d.variable = verif.variable.Variable("ghost", "units")
+    # axis value caches (what axis.compute_from_times / leadtimes returned for the common coordinates; C11)
+    d.axis_cache, d.axis_cache_unique = {}, {}
+    gh.axis_vals, gh.axis_uniq = {}, {}
+    for nm in ("Month", "Leadtimeday"):
+        ax = getattr(verif.axis, nm)()
+        dom = CT if nm == "Month" else CL
+        vals = G.array("axv_" + nm, (dom,), kinds=(FIN,))
+        uniq = G.array("axu_" + nm, ("u_" + nm,), kinds=(FIN,), min_size=1)
+        d.axis_cache[ax], d.axis_cache_unique[ax] = vals, uniq
+        gh.axis_vals[nm], gh.axis_uniq[nm] = vals, uniq
+    d.axis_cache[verif.axis.Leadtime()] = d.axis_cache[verif.axis.Leadtimeday()]      # any lead-time axis: same mechanism
+    d.axis_cache_unique[verif.axis.Leadtime()] = d.axis_cache_unique[verif.axis.Leadtimeday()]
+    gh.data = d
+    return gh
+
+
+FIELDS = {"obs": verif.field.Obs, "fcst": verif.field.Fcst, "aux": lambda: verif.field.Other("aux")}
+
+
+# ----------------------------------------------------------------------------------------------
+# the specification, pointwise (dual: symbolic SNum / concrete float)
+# ----------------------------------------------------------------------------------------------
+def _at3(S, arr, t, l, s):
+    return S.at(arr, (t, l, s))
+
+
+def source_input(gh, i, f):
+    """which input's stored array serves input i for field f: its own, or -- for observations -- the first
+    input that has observations ('a file lacking observations is scored against those of a file that has them')"""
+    if f != "obs" or gh.has_obs[i]:
+        return i
+    for k in range(gh.N):
+        if gh.has_obs[k]:
+            return k
+    return None
+
+
+def gathered(S, gh, i, f, c):
+    """input i's own stored value for the common case c = (t, l, s): looked up at ITS OWN indices (C02)"""
+    k = source_input(gh, i, f)
+    t, l, s = c
+    raw = gh.raw0[(k, f)]
+    return S.at(raw, (S.at(gh.It[k], (t,)), S.at(gh.Il[k], (l,)), S.at(gh.Is[k], (s,))))
+
+
+def cached_spec(S, gh, j, f, c):
+    """C01: missing wherever ANY input is missing for this field, otherwise input j's own value"""
+    anymiss = S.or_(*[S.isnan(gathered(S, gh, i, f, c)) for i in range(gh.N)])
+    return S.ite(anymiss, S.nan, gathered(S, gh, j, f, c))
+
+
+def request_value(S, gh, j, f, c, fields):
+    """the value field f contributes for case c in a request of `fields` for input j (before validity)"""
+    x = cached_spec(S, gh, j, f, c)
+    if f == "obs" and gh.data._obs_range is not None:
+        x = S.ite(S.or_(x < gh.lo, x > gh.hi), S.nan, x)          # inclusive range; NaN compares false
+    if gh.clim and f in ("obs", "fcst") and ("obs" in fields or "fcst" in fields):
+        cl = cached_spec(S, gh, gh.N - 1, "fcst", c)
+        x = (x - cl) if gh.clim == "subtract" else (x / cl)
+    return x
+
+
+def case_valid(S, gh, j, c, fields):
+    return S.and_(*[S.isfin(request_value(S, gh, j, f, c, fields)) for f in fields])
+
+
+# how an index tuple of a returned array maps to the common case (t, l, s)
+def case_of(gh, out_axes, idx, axis_kind, k):
+    CT, CL, CS = gh.axes
+    pos = {ax: i for i, ax in enumerate(out_axes)}
+    t = idx[pos[CT]] if CT in pos else k
+    l = idx[pos[CL]] if CL in pos else k
+    s = idx[pos[CS]] if CS in pos else k
+    return (t, l, s)
+
+
+def in_slice(S, gh, axis_kind, k, c):
+    t, l, s = c
+    if axis_kind == "month":
+        return S.same(S.at(gh.axis_vals["Month"], (t,)), S.at(gh.axis_uniq["Month"], (k,)))
+    if axis_kind in ("leadtimeday", "leadtime"):
+        return S.same(S.at(gh.axis_vals["Leadtimeday"], (l,)), S.at(gh.axis_uniq["Leadtimeday"], (k,)))
+    return True
+
+
+AXES = {"time": verif.axis.Time, "month": verif.axis.Month, "leadtime": verif.axis.Leadtime, "leadtimeday": verif.axis.Leadtimeday,
+        "location": verif.axis.Location, "lat": verif.axis.Lat, "no": verif.axis.No, "threshold": verif.axis.Threshold,
+        "all": verif.axis.All}
+
+
+def check_result(S, gh, j, fields, axis_kind, k, outs, label=""):
+    """goals: every returned array holds exactly the valid cases of the slice, with the specified values"""
+    goals = []
+    if S.symbolic:
+        sentinel = not isinstance(outs[0], sym.SArr)
+        if sentinel:
+            # the one-element NaN sentinel: legitimate only when the slice has no valid case
+            CT, CL, CS = gh.axes
+            sub = {"time": (CL, CS), "location": (CT, CL), "lat": (CT, CL)}.get(axis_kind, (CT, CL, CS))
+
+            def novalid(idx):
+                c = case_of(gh, sub, idx, axis_kind, k)
+                return S.not_(S.and_(in_slice(S, gh, axis_kind, k, c), case_valid(S, gh, j, c, fields)))
+            ok = all((not isinstance(o, sym.SArr)) and o.shape == (1,) and bool(_np.isnan(o[0])) for o in outs)
+            return [(label + "one-nan-per-field-only-when-the-slice-has-no-valid-case", S.and_(ok, S.forall_axes(sub, novalid)))]
+        for f, o in zip(fields, outs):
+            def body(idx, f=f, o=o):
+                c = case_of(gh, o.axes, idx, axis_kind, k)
+                want_sel = S.and_(in_slice(S, gh, axis_kind, k, c), case_valid(S, gh, j, c, fields))
+                x = request_value(S, gh, j, f, c, fields)
+                if axis_kind == "all":
+                    return S.same(o.at(idx), S.ite(case_valid(S, gh, j, c, fields), x, S.nan))
+                return S.and_(S.iff(S.selected_at(o, idx), want_sel), S.implies(want_sel, S.same(o.at(idx), x)))
+            goals.append((label + "field-%s:exactly-the-valid-cases-of-the-slice,with-own-values" % f, S.forall_axes(o.axes, body)))
+        if axis_kind != "all":
+            nvalid = S.count_where_axes(outs[0].axes, lambda idx: S.selected_at(outs[0], idx))
+            goals.append((label + "non-empty", nvalid >= 1))
+        return goals
+    # concrete: sequences in flatten order
+    T, L, Sn = [len(gh.It[0]), len(gh.Il[0]), len(gh.Is[0])]
+    cases = [(t, l, s) for t in range(T) for l in range(L) for s in range(Sn)]
+    if axis_kind != "all":
+        sel = [c for c in cases if _conc_in_slice(S, gh, axis_kind, k, c) and case_valid(S, gh, j, c, fields)]
+        for f, o in zip(fields, outs):
+            want = [float(request_value(S, gh, j, f, c, fields)) for c in sel] or [float("nan")]
+            goals.append((label + "field-%s:exactly-the-valid-cases-of-the-slice,with-own-values" % f, S.same_array(_np.asarray(o, float), _np.array(want))))
+    else:
+        for f, o in zip(fields, outs):
+            want = _np.array([float(request_value(S, gh, j, f, c, fields)) if case_valid(S, gh, j, c, fields) else float("nan") for c in cases]).reshape(T, L, Sn)
+            goals.append((label + "field-%s:exactly-the-valid-cases-of-the-slice,with-own-values" % f, S.same_array(_np.asarray(o, float), want)))
+    return goals
+
+
+def _inslice3(S, gh, axis_kind, k, c):
+    t, l, s = c
+    if axis_kind == "time":
+        return S.same(sym.SNum(FIN, t, is_int=True), k)
+    if axis_kind in ("location", "lat"):
+        return S.same(sym.SNum(FIN, s, is_int=True), k)
+    return in_slice(S, gh, axis_kind, k, c)
+
+
+def _conc_in_slice(S, gh, axis_kind, k, c):
+    t, l, s = c
+    if axis_kind == "time":
+        return t == k
+    if axis_kind in ("location", "lat"):
+        return s == k
+    return bool(in_slice(S, gh, axis_kind, k, c))
+
+
+def frame_goals(S, gh, label=""):
+    """the input objects' data are left unmodified"""
+    goals = []
+    for (i, f), raw in gh.raw.items():
+        if raw is None:
+            continue
+        r0 = gh.raw0[(i, f)]
+        goals.append((label + "FRAME:input-%d-%s-not-modified" % (i, f), S.forall(r0, lambda idx, raw=raw, r0=r0: S.same(S.at(raw, idx), S.at(r0, idx)))))
+    return goals
+
+
+# ----------------------------------------------------------------------------------------------
+# get_scores: one request on a fresh dataset
+# ----------------------------------------------------------------------------------------------
+def _slice_index(G, gh, axis_kind):
+    if axis_kind in ("no", "threshold", "all"):
+        return None
+    k = G.num("k", integer=True, numpy=False)
+    G.assume(k >= 0)
+    CT, CL, CS = gh.axes
+    if axis_kind == "time":
+        G.assume(k < _size(G, gh.It[0]))
+    elif axis_kind in ("location", "lat"):
+        G.assume(k < _size(G, gh.Is[0]))
+    elif axis_kind == "month":
+        G.assume(k < _size(G, gh.axis_uniq["Month"]))
+    else:
+        G.assume(k < _size(G, gh.axis_uniq["Leadtimeday"]))
+    return k
+
+
+def _size(G, arr):
+    return arr.shape[0] if hasattr(arr, "axes") else len(arr)
+
+
+def _one_request(n_inputs, j, fields, axis_kind, has_obs=None, clim=None, obs_range=False, single=False):
+    other = "aux" in fields
+
+    def setup(G):
+        gh = ghost(G, n_inputs, has_obs=has_obs, clim=clim, obs_range=obs_range, other=other)
+        gh.k = _slice_index(G, gh, axis_kind)
+        return gh
+
+    def call(gh):
+        fl = [FIELDS[f]() for f in fields]
+        req = fl[0] if single else fl
+        return gh.data.get_scores(req, j, AXES[axis_kind](), gh.k)
+
+    def post(S, gh, out):
+        outs = [out] if single else list(out)
+        goals = [("returns-one-array-per-requested-field-in-request-order", len(outs) == len(fields) and (single or isinstance(out, list)))]
+        goals += check_result(S, gh, j, fields, axis_kind, gh.k, outs)
+        goals += frame_goals(S, gh)
+        return goals
+    return setup, call, post
+
+
+def _reg_request(name, props, *a, **kw):
+    s, c, p = _one_request(*a, **kw)
+    return register(Obligation("verif.data.Data.get_scores#POST:" + name, props, s, c, p, modules=MOD,
+                               functions=["verif.data.Data.get_scores", "verif.data.Data._get_score", "verif.data.Data._apply_axis"],
+                               assumptions=["A5: observations of different inputs agree wherever both are present (the tool's documented assumption)",
+                                            "ghost dataset: Data's index lists satisfy the contract of _get_common_indices (decided by its own obligations)"]))
+
+
+_CORE = ("C01", "C02", "C04", "C18")
+for _n in (1, 2, 3):
+    for _j in range(_n):
+        if _n == 3 and _j == 1:
+            continue
+        _reg_request("N=%d,input=%d,[obs,fcst],axis=time" % (_n, _j), _CORE, _n, _j, ("obs", "fcst"), "time")
+_reg_request("N=2,input=1,[obs,fcst],axis=month", _CORE + ("C11",), 2, 1, ("obs", "fcst"), "month")
+_reg_request("N=2,input=0,[obs,fcst],axis=leadtimeday", _CORE + ("C11",), 2, 0, ("obs", "fcst"), "leadtimeday")
+_reg_request("N=2,input=1,[obs,fcst],axis=location", _CORE + ("C11",), 2, 1, ("obs", "fcst"), "location")
+_reg_request("N=2,input=0,[obs,fcst],axis=no", _CORE, 2, 0, ("obs", "fcst"), "no")
+_reg_request("N=2,input=0,[obs,fcst],axis=all", _CORE, 2, 0, ("obs", "fcst"), "all")
+_reg_request("N=2,input=1,obs-single,axis=all", _CORE, 2, 1, ("obs",), "all", single=True)
+_reg_request("N=2,input=0,fcst-single,axis=time", _CORE, 2, 0, ("fcst",), "time", single=True)
+_reg_request("N=2,input=1,[fcst,aux,obs],axis=time", _CORE, 2, 1, ("fcst", "aux", "obs"), "time")
+_reg_request("N=2,input=1,[obs,fcst],axis=time,input-1-has-no-obs", _CORE, 2, 1, ("obs", "fcst"), "time", has_obs=[True, False])
+_reg_request("N=2,input=0,[obs,fcst],axis=time,input-0-has-no-obs", _CORE, 2, 0, ("obs", "fcst"), "time", has_obs=[False, True])
+_reg_request("N=2,input=0,[obs,fcst],axis=time,obsrange", ("C03", "C04"), 2, 0, ("obs", "fcst"), "time", obs_range=True)
+_reg_request("N=1,input=0,[obs,fcst],axis=no,obsrange", ("C03", "C04"), 1, 0, ("obs", "fcst"), "no", obs_range=True)
+for _ct in ("subtract", "divide"):
+    _reg_request("N=1+clim,input=0,[obs,fcst],axis=time,clim=%s" % _ct, ("C14", "C04", "C01"), 1, 0, ("obs", "fcst"), "time", clim=_ct)
+    _reg_request("N=2+clim,input=1,[obs,fcst],axis=no,clim=%s" % _ct, ("C14", "C04", "C01"), 2, 1, ("obs", "fcst"), "no", clim=_ct)
+_reg_request("N=1+clim,input=0,[fcst,aux],axis=time,clim=subtract", ("C14",), 1, 0, ("fcst", "aux"), "time", clim="subtract")
+_reg_request("N=1+clim,input=0,[aux],axis=time,clim=subtract", ("C14",), 1, 0, ("aux",), "time", clim="subtract")
+_reg_request("N=1+clim,input=0,[obs,fcst],axis=time,clim=subtract,obsrange", ("C14", "C03"), 1, 0, ("obs", "fcst"), "time", clim="subtract", obs_range=True)
+
+
+def _bad_input_index(n_inputs, j, clim=None):
+    def setup(G):
+        return ghost(G, n_inputs, clim=clim)
+
+    def call(gh):
+        return gh.data.get_scores([verif.field.Obs(), verif.field.Fcst()], j, verif.axis.No(), None)
+
+    def post(S, gh, out):
+        return [("must-abort", False)]
+
+    def raises(S, gh, outcome):
+        return [("error-exit", outcome.kind == "abort")]
+    return setup, call, post, raises
+
+
+for _n, _j, _cl, _tag in ((2, 2, None, "index=num_inputs"), (2, -1, None, "negative"), (1, 1, "subtract", "the-climatology-is-not-a-scored-input")):
+    s, c, p, r = _bad_input_index(_n, _j, _cl)
+    register(Obligation("verif.data.Data.get_scores#RAISES:input-index-%s" % _tag, ("C14", "C01"), s, c, p, raises=r, modules=MOD,
+                        functions=["verif.data.Data.get_scores"]))
+
+
+# ----------------------------------------------------------------------------------------------
+# C18: history independence -- every ordered pair of requests from a menu, on one dataset.
+# After the second call the FIRST result must still equal its specification (arrays handed out earlier are
+# never altered), the second result must equal its own specification (which does not mention the first
+# request), and the inputs are unmodified.  With the invariant below this is the induction step for every history.
+# ----------------------------------------------------------------------------------------------
+MENU = {
+    "A": (("obs", "fcst"), 0, "time", False),
+    "B": (("obs", "fcst"), 1, "time", False),
+    "C": (("obs",), 0, "all", True),
+    "D": (("obs", "fcst"), 0, "all", False),
+    "E": (("fcst", "obs"), 0, "time", False),
+    "F": (("fcst",), 1, "all", True),
+    "G": (("obs", "fcst"), 1, "no", False),
+}
+
+
+def _do_request(gh, req, k):
+    fields, j, axis_kind, single = req
+    fl = [FIELDS[f]() for f in fields]
+    out = gh.data.get_scores(fl[0] if single else fl, j, AXES[axis_kind](), k)
+    return [out] if single else list(out)
+
+
+def _pair(r1, r2, n_inputs=2, clim=None, obs_range=False, menu=MENU, same_slice=False):
+    q1, q2 = menu[r1], menu[r2]
+
+    def setup(G):
+        gh = ghost(G, n_inputs, clim=clim, obs_range=obs_range)
+        gh.k1 = _slice_index(G, gh, q1[2])
+        if r1 == r2 or same_slice:
+            gh.k2 = gh.k1
+        else:
+            # a second, independent slice index (same axis kind => may or may not be the same slice)
+            class _G2(object):
+                def __getattr__(self, n):
+                    return getattr(G, n)
+
+                def num(self, name, **kw):
+                    return G.num(name + "2", **kw)
+            gh.k2 = _slice_index(_G2(), gh, q2[2])
+        return gh
+
+    def call(gh):
+        a = _do_request(gh, q1, gh.k1)
+        b = _do_request(gh, q2, gh.k2)
+        return a, b
+
+    def post(S, gh, out):
+        a, b = out
+        goals = check_result(S, gh, q1[1], q1[0], q1[2], gh.k1, a, label="first-result-still-as-specified-after-second-request:")
+        goals += check_result(S, gh, q2[1], q2[0], q2[2], gh.k2, b, label="second-result-independent-of-first-request:")
+        goals += frame_goals(S, gh)
+        return goals
+    return setup, call, post
+
+
+for _a in sorted(MENU):
+    for _b in sorted(MENU):
+        s, c, p = _pair(_a, _b)
+        register(Obligation("verif.data.Data.get_scores#INV:history[%s,%s]" % (_a, _b), ("C18",), s, c, p, modules=MOD,
+                            functions=["verif.data.Data.get_scores", "verif.data.Data._get_score"]))
+
+for _a in sorted(MENU):
+    for _b in sorted(MENU):
+        if _a != _b and MENU[_a][2] == MENU[_b][2] and MENU[_a][2] not in ("all", "no"):
+            s, c, p = _pair(_a, _b, same_slice=True)
+            register(Obligation("verif.data.Data.get_scores#INV:history[%s,%s,same-slice]" % (_a, _b), ("C18",), s, c, p, modules=MOD,
+                                functions=["verif.data.Data.get_scores", "verif.data.Data._get_score"]))
+
+CLIM_MENU = {
+    "P": (("obs", "fcst"), 0, "all", False),
+    "Q": (("obs", "fcst"), 0, "time", False),
+    "R": (("fcst",), 0, "all", True),
+}
+for _a in sorted(CLIM_MENU):
+    for _b in sorted(CLIM_MENU):
+        s, c, p = _pair(_a, _b, n_inputs=1, clim="subtract", menu=CLIM_MENU)
+        register(Obligation("verif.data.Data.get_scores#INV:history-with-climatology[%s,%s]" % (_a, _b), ("C18", "C14"), s, c, p, modules=MOD,
+                            functions=["verif.data.Data.get_scores", "verif.data.Data._get_score"]))
+for _a, _b in (("C", "A"), ("A", "C"), ("D", "A")):
+    s, c, p = _pair(_a, _b, obs_range=True)
+    register(Obligation("verif.data.Data.get_scores#INV:history-with-obsrange[%s,%s]" % (_a, _b), ("C18", "C03"), s, c, p, modules=MOD,
+                        functions=["verif.data.Data.get_scores", "verif.data.Data._get_score"]))
